@@ -289,3 +289,124 @@ Ltac i1_top x :=
       [ subst x; try rewrite (enqp_at _ _ _ H) in *; try rewrite (susp_at _ _ _ H) in * | ]
     end
   end.
+
+(* ---------- I1 is inductive ---------- *)
+Ltac prep_ustep x :=
+  match goal with
+  | Hu : ustep ?s ?t ?u = Some (?s1, ?r), Ht : get_thread ?s ?t = Some ?th |- _ =>
+      let HU := fresh "HU" in let th1 := fresh "th1" in
+      let Hth1 := fresh "Hth1" in let Hcbs1 := fresh "Hcbs1" in let Hmain1 := fresh "Hmain1" in
+      pose proof (ustep_I1 s t u s1 r th x Ht Hu) as HU;
+      destruct (ustep_thread s t u s1 r th Ht Hu) as (th1 & Hth1 & Hcbs1 & Hmain1)
+  end.
+
+Ltac prep_wake x :=
+  match goal with
+  | Hw : wake ?s ?y = Some ?s1 |- _ =>
+      let thy := fresh "thy" in let ky := fresh "ky" in let Hy := fresh "Hy" in
+      let Hmy := fresh "Hmy" in
+      apply wake_spec in Hw; destruct Hw as (thy & ky & Hy & Hmy & ->);
+      let A := fresh "WA" in let B := fresh "WB" in let C := fresh "WC" in let D := fresh "WD" in
+      destruct (occ_wake s y thy ky x Hy Hmy) as (A & B & C & D)
+  end.
+
+Ltac prep_deq x :=
+  match goal with
+  | Hq : getq ?s (QC ?c) = ?y :: ?r |- _ => pose proof (inqs_setq_QC_deq s c y r x Hq)
+  end.
+
+
+Ltac unify_thread :=
+  rewrite ?get_thread_setq, ?get_thread_set_mword, ?get_thread_set_festat in *;
+  repeat match goal with
+  | H1 : get_thread ?s ?t = Some ?a, H2 : get_thread ?s ?t = Some ?b |- _ =>
+      rewrite H1 in H2; apply Some_inj in H2; subst
+  end.
+
+
+Ltac wake_thread :=
+  match goal with
+  | Hy : get_thread ?s ?y = Some ?thy, H : get_thread (set_thread ?s ?y ?thy') ?t = Some ?t1 |- _ =>
+     let H' := fresh "H" in
+     pose proof H as H';
+     rewrite (get_set_thread s y thy' thy t Hy) in H';
+     destruct (Nat.eqb_spec y t) as [Eyt|Nyt]; [ subst y | ]
+  end.
+
+Ltac at_simp :=
+  repeat match goal with
+  | H : get_thread ?s ?t = Some ?th |- _ =>
+      first [ rewrite (enqp_at s t th H) in * | rewrite (susp_at s t th H) in * ]
+  end.
+
+
+Ltac cbs_pose f :=
+  match goal with
+  | Hn : nth_error (cbs ?th) ?i = Some ?c |- _ =>
+    try (match goal with |- context [upd (cbs th) i ?y] =>
+           pose proof (lsum_upd f (cbs th) i y c Hn) end);
+    try (match goal with |- context [remove_nth (cbs th) i] =>
+           pose proof (lsum_remove_nth f (cbs th) i c Hn) end)
+  end.
+
+Lemma inqs_enq s q t x :
+  (inqs (setq s q (getq s q ++ [t])) x <= inqs s x + eqn t x)%nat.
+Proof.
+  destruct q as [|c].
+  - rewrite inqs_setq_QM. cbn [getq]. rewrite cnt_app. unfold inqs. lia.
+  - pose proof (inqs_setq_QC_le s c (getq s (QC c) ++ [t]) x) as Q. rewrite cnt_app in Q. lia.
+Qed.
+
+Lemma eqn_neq a b : a <> b -> eqn a b = 0%nat.
+Proof. intros N. unfold eqn. destruct (Nat.eqb_spec a b); congruence. Qed.
+
+Lemma I1_step s a s' : I1 s -> step s a = Some s' -> I1 s'.
+Proof.
+  intros HI Hs x. specialize (HI x). destruct a as [t e]. destruct e.
+  - step_inv' Hs. all: fin Hs.
+    all: i1_top x; th_simp; try rewrite Heqp in *; th_simp; try lia.
+  - step_inv' Hs. all: fin Hs.
+    all: try prep_ustep x; try prep_wake x; try prep_deq x.
+    all: try wake_thread; unify_thread; try congruence.
+    all: try match goal with H : _ \/ _ |- _ => destruct H as [H|(k1 & Hk1 & Hk2)]; [|congruence] end.
+    all: try (i1_top x; at_simp; try rewrite ?WA, ?WB, ?WC in *; th_simp;
+              rewrite ?Hmain1, ?Hcbs1, ?Heqp in *; th_simp; cbn [hand_r] in *; try lia).
+  - step_inv' Hs. all: fin Hs.
+    all: try prep_ustep x.
+    all: unify_thread.
+    all: try match goal with |- context [setq ?s ?q (getq ?s ?q ++ [?t])] => pose proof (inqs_enq s q t x) end.
+    all: try match goal with Hc : cbs ?th1 = cbs ?t0, Hn : nth_error (cbs ?t0) _ = _ |- _ => rewrite <- Hc in Hn end.
+    all: try match goal with
+             | H : get_thread ?s ?t = Some ?th |- context [set_thread (setq ?s ?q ?l) ?t _] =>
+                 assert (get_thread (setq s q l) t = Some th) by (rewrite get_thread_setq; exact H)
+             end.
+    all: cbs_pose (hand_cb x); cbs_pose enq_cb.
+    all: i1_top x; at_simp; th_simp; cbn [hand_r] in *; rewrite ?eqn_refl in *;
+         try (rewrite (eqn_neq _ _ Ntx) in * ).
+    all: try lia.
+  - step_inv' Hs. fin Hs.
+    i1_top x; th_simp; try lia.
+    unfold ret_ok in *. rewrite Heqo in *. destruct (main t0); try discriminate; lia.
+Qed.
+
+Lemma get_thread_init nt nc t th : get_thread (init_state nt nc) t = Some th -> th = thread0.
+Proof.
+  unfold get_thread, init_state; cbn [thr]. intros H. apply nth_error_In in H.
+  apply repeat_spec in H. exact H.
+Qed.
+
+Lemma I1_init s : init s -> I1 s.
+Proof.
+  intros (nt & nc & ->) x.
+  assert (A : inqs (init_state nt nc) x = 0%nat).
+  { unfold inqs, init_state; cbn [mq cqs]. rewrite lsum_repeat0; reflexivity. }
+  assert (B : hands (init_state nt nc) x = 0%nat).
+  { unfold hands, init_state; cbn [thr]. rewrite lsum_repeat0; reflexivity. }
+  assert (C : enqp (init_state nt nc) x = 0%nat).
+  { unfold enqp. destruct (get_thread (init_state nt nc) x) as [th|] eqn:E; auto.
+    apply get_thread_init in E. subst th. reflexivity. }
+  lia.
+Qed.
+
+Theorem I1_reach s : reach s -> I1 s.
+Proof. apply invariant_rule; [exact I1_init | intros s0 a s1; apply I1_step]. Qed.
